@@ -254,8 +254,8 @@ Proof.
   unfold doc_eqb. now rewrite key_eqb_refl, N.eqb_refl.
 Qed.
 
-Lemma fetch_complete : forall req streams, well_behaved req streams = true ->
-  docs_complete req streams (fetch req streams) = true.
+Lemma fetch_complete_eq : forall req streams, well_behaved req streams = true ->
+  fetch req streams = map (expected_doc streams) req.
 Proof.
   intros req streams H. unfold well_behaved in H. rewrite !andb_true_iff in H.
   destruct H as [[H1 H2] H3]. pose proof (nodup_keys_NoDup _ H1) as ND.
@@ -265,10 +265,9 @@ Proof.
     - intros s Hs. apply in_map_iff in Hs. destruct Hs as [st [<- Hst]].
       rewrite forallb_forall in H3. apply (H3 _ Hst).
     - now apply pairwise_attach. }
-  unfold docs_complete, fetch. fold M.
+  unfold fetch. fold M.
   rewrite (align_complete req req [] M eq_refl ND HM).
-  replace (map (pick M) req) with (map (expected_doc streams) req); [apply doc_list_eqb_refl|].
-  apply map_ext_in. intros k Hk.
+  symmetry. apply map_ext_in. intros k Hk.
   assert (Pk : pos req k <> None) by (apply pos_from_in; exact Hk).
   pose proof (filter_key_le1 req k M 0 Pk HM) as L1.
   pose proof (Permutation_filter' (fun d : doc => key_eqb k (fst d)) _ _ (nmerge_perm (less req) (map attach streams))) as PF.
@@ -279,4 +278,10 @@ Proof.
     assert (Hd : In d (filter (fun d : ids * N => key_eqb k (fst d)) M)) by (rewrite EF; simpl; auto).
     apply filter_In in Hd. destruct Hd as [_ Hd]. apply key_eqb_eq in Hd. subst k. destruct d; reflexivity.
   - simpl in L1. lia.
+Qed.
+
+Lemma fetch_complete : forall req streams, well_behaved req streams = true ->
+  docs_complete req streams (fetch req streams) = true.
+Proof.
+  intros req streams H. unfold docs_complete. rewrite (fetch_complete_eq _ _ H). apply doc_list_eqb_refl.
 Qed.
